@@ -170,6 +170,23 @@ theorem no_lost_wakeup (oS oL : Ord) (np : List NAct) (hp : pend false np = true
   · exact .inr hw
 
 open Quic.Sync.Waker in
+/-- the same for every waiter of the shape `check^a; register; check^(b+1); park` — `worker::Receiver::poll_acquire`
+    is `check; register; check; check; check` (a = 1, b = 2) -/
+theorem no_lost_wakeup_any_rechecks (a b : Nat) (oS oL : Ord) (np : List NAct) (hp : pend false np = true)
+    (acts : List Waker.Act) (s : Waker.Sys) (h : Waker.run oS oL (Waker.init (waiterShape a b) np) acts = some s)
+    (hpark : s.wstat = .parked) : s.woken = true ∨ pend s.isSet s.nprog = true := by
+  have inv := winv_run acts (winv_init_shape a b hp) h
+  rcases inv.j7 with hw | hw
+  · obtain ⟨hr, h0⟩ := inv.j8 hpark
+    rcases inv.j1 hr hw with h | h
+    · exact .inl h
+    · omega
+  · exact .inr hw
+
+example : Waker.waiterShape 1 2 = [.check, .register, .check, .check, .check] := rfl
+example : Waker.waiterShape 1 0 = Waker.waiterPinned := rfl
+
+open Quic.Sync.Waker in
 /-- … in particular once the notifier has finished, a parked waiter has been woken -/
 theorem no_lost_wakeup_final (oS oL : Ord) (np : List NAct) (hp : pend false np = true) (acts : List Waker.Act)
     (s : Waker.Sys) (h : Waker.run oS oL (Waker.init waiterPinned np) acts = some s) :
